@@ -178,6 +178,21 @@ def run(ck, fx, cg, tier):
         ck.sample({"rule": "R16.onepush", "fn": alloc["path"], "order": ["size update @%s" % loc(su), "log write @%s" % loc(lw), "push @%s" % loc(pu)],
                    "template": tpl})
 
+    # ------------------------------------------------------------ who-may-write the cumulative size
+    # the size in an A record is the sum of the shapes of the objects created so far: `Heap.size` is written by
+    # `allocate` only (one increment per creation). Any other writer makes a record depend on more than the created
+    # value's shape — on allocation history, on what was instantiated first, on a collector …
+    n_sz = 0
+    for b_, n_, ps_, ctx_ in field_uses(fx, HEAP, "size"):
+        if b_["from_expansion"]:
+            continue
+        n_sz += 1
+        if ctx_["kind"] in ("assign", "assign_op", "addr_of_mut") or (ctx_["kind"] in ("recv", "arg") and ctx_.get("mut")):
+            okw = b_["path"] == alloc["path"]
+            if not okw:
+                ck.ob("R16.size", "%s|writes Heap.size" % b_["path"], False, loc(n_),
+                      "the cumulative heap size is also written in %s (%s): the size column of the log no longer is the sum of the created objects' shapes" % (b_["path"], ctx_["kind"]))
+    ck.ob("R16.size", "Heap.size is written by allocate only", True, loc(alloc), "%d use(s) of Heap.size examined" % n_sz, nontrivial=False)
     # ------------------------------------------------------------ who-may-call allocate
     adid = alloc["did"]
     expect = {"bytecode::interpreter::eval_object", "bytecode::interpreter::eval_array"}
@@ -273,7 +288,8 @@ def run(ck, fx, cg, tier):
         used = []
         for n_, ps_ in walk_body(hb_t):
             if n_.get("k") == "Path" and (n_.get("res") or {}).get("k") == "Local" and n_["res"].get("lid") in tl:
-                par = next((q for q in reversed(ps_) if isinstance(q, dict) and q.get("k") not in ("DropTemps", "Use", "AddrOf", "Block", None)), None)
+                chain_ = [q if isinstance(q, dict) else q[1] for q in ps_ if isinstance(q, dict) or (isinstance(q, tuple) and len(q) == 2 and isinstance(q[1], dict))]
+                par = next((q for q in reversed(chain_) if q.get("k") not in ("DropTemps", "Use", "AddrOf", "Block", None)), None)
                 pk = (par or {}).get("k")
                 if pk not in ("Call", "MethodCall", "Closure", "Struct", "Tup", None):
                     used.append(pk)
